@@ -307,7 +307,7 @@ func runC18(p *an.Prog, r *an.Run, tier string) {
 	var strictAppend *ssa.Call
 	for _, f := range searchFns {
 		for _, c := range an.Calls(f, false) {
-			if b, ok := c.Common().Value.(*ssa.Builtin); ok && b.Name() == "append" && underStrict(c.(ssa.Instruction)) {
+			if b, ok := c.Common().Value.(*ssa.Builtin); ok && an.Ident(b.Name()) == "append" && underStrict(c.(ssa.Instruction)) {
 				if sl, ok := c.Common().Args[0].Type().Underlying().(*types.Slice); !ok || !isBasic(sl.Elem(), types.String) {
 					continue
 				}
